@@ -350,6 +350,12 @@ def chk_unary(ctx, p):
         res.clear()
         ctx.count("aliasing.mutated_results")
         getattr(P, name)()
+    pats = P.block_decomposition_as_pattern()
+    ctx.ev()
+    ctx.count("blocks.as_patterns")
+    want = {C.std(p[s:s + l]) for s, l in S.intervals(tuple(p))}
+    if {tuple(q) for q in pats} != want or len(pats) != len(set(pats)) or not all(type(q) is Perm for q in pats):
+        report("unary", [p], f"block_decomposition_as_pattern = {sorted(map(tuple, pats))}, the patterns of the proper intervals are {sorted(want)}")
     for blocks in (P.block_decomposition(),):
         for b in blocks:
             b.clear()
